@@ -77,8 +77,11 @@ func checkGenCase(c GenCase) *evid.Failure {
 		}(g)
 	}
 	start.Done()
-	done.Wait()
+	hung := waitCalls(&done)
 	stop.Store(true)
+	if hung != nil {
+		return hung
+	}
 	gc.Wait()
 	want := genResult(typ, c.Value, doc)
 	for g, rs := range results {
@@ -139,7 +142,9 @@ func checkDistinctCase(c DistinctCase) *evid.Failure {
 			}(g)
 		}
 		start.Done()
-		done.Wait()
+		if hung := waitCalls(&done); hung != nil {
+			return hung
+		}
 		for g := range res {
 			if want := call(c.Op, types[g], g%10); strings.HasPrefix(res[g], "PANIC") || res[g] != want {
 				return &evid.Failure{Oracle: "each concurrent call returns exactly what it returns running alone", Observed: fmt.Sprintf("round %d goroutine %d %s on its own fresh type: %s", r, g, c.Op, trunc(res[g])), Expected: trunc(want), Class: "concurrent-result"}
@@ -259,7 +264,9 @@ func TestMutualFirstUse(t *testing.T) {
 		}
 		evid.Journal("MutualFirstUse", map[string]any{"pair": i, "pkg": pkg})
 		start.Done()
-		done.Wait()
+		if hung := waitCalls(&done); hung != nil {
+			evid.Violation(t, "MutualFirstUse", map[string]any{"pair": i, "pkg": pkg}, hung)
+		}
 		for g := range res {
 			n++
 			if want := mutualCall(pkg, pair[g%2]); strings.HasPrefix(res[g], "PANIC") || res[g] != want {
